@@ -214,9 +214,10 @@ def run(index, rep, tier):
         rep.check(ok, "R01.5", enc.qualname, "reset of " + attr, fn_where(enc), "encode_bipartitions: self.%s = None dominates every exit" % attr,
                   "encode_bipartitions can return without resetting the cached `%s`: distances and lookups after a re-encode use edges of the previous structure" % attr)
     sets = [n for n in cfg.nodes if n.kind == "stmt" and isinstance(n.ast, ast.Assign) and norm(n.ast.targets[0]) == "self.bipartition_encoding"]
+    seed_names = {"self.seed_node", "self._seed_node"} | {norm(n.targets[0]) for n in walk_no_nested(enc.node) if isinstance(n, ast.Assign) and norm(n.value) in ("self.seed_node", "self._seed_node")}
     ids = {n.id for n in sets}
     w = cfg.can_reach(cfg.entry, lambda n: n is cfg.exit, avoid=lambda n: n.id in ids, follow_exc=False,
-                      edge_ok=lambda s, l, d: not (s.kind == "test" and norm(s.ast) == "seed_node" and l == "f"))
+                      edge_ok=lambda s, l, d: not (s.kind == "test" and norm(s.ast) in seed_names and l == "f"))
     rep.check(w is None and bool(sets), "R01.5", enc.qualname, "bipartition_encoding assigned", fn_where(enc), "every completing path (seed node present) assigns self.bipartition_encoding",
               "encode_bipartitions has a completing path that never assigns self.bipartition_encoding: the encoding list of the previous structure stays in place")
     # who writes the lazy maps
@@ -235,9 +236,11 @@ def run(index, rep, tier):
     both = {w_.attr for w_ in fills} == {"_bipartition_edge_map", "_split_bitmask_edge_map"}
     rep.check(both, "R01.5", g.qualname, "both maps filled together", fn_where(g), "the bipartition->edge and split->edge maps are rebuilt in the same pass",
               "_get_bipartition_edge_map no longer fills both edge maps in the same pass: one of them keeps entries of an earlier encoding")
-    keyok = all((w_.attr == "_bipartition_edge_map" and norm(w_.node.slice) == "edge.bipartition") or
-                (w_.attr == "_split_bitmask_edge_map" and norm(w_.node.slice) == "edge.bipartition.split_bitmask") for w_ in fills) and \
-        all(norm(w_.value) == "edge" for w_ in fills)
+    gl = [l for l in walk_no_nested(g.node) if isinstance(l, ast.For)]
+    ev = norm(gl[0].target) if gl else "edge"
+    keyok = all((w_.attr == "_bipartition_edge_map" and norm(w_.node.slice) == ev + ".bipartition") or
+                (w_.attr == "_split_bitmask_edge_map" and norm(w_.node.slice) == ev + ".bipartition.split_bitmask") for w_ in fills) and \
+        all(norm(w_.value) == ev for w_ in fills)
     rep.check(keyok, "R01.5", g.qualname, "map keys/values", fn_where(g), "maps are keyed by the edge's own bipartition / split bitmask and hold that edge",
               "the edge maps are keyed or filled with something other than the edge's own bipartition/split bitmask")
 
@@ -250,26 +253,34 @@ def run(index, rep, tier):
     c10.index_state_rules(index, rep, {"R10.1": "R01.8", "R10.2": "R01.8", "R10.3": "R01.8"})
 
     # ---- R01.6
-    wiring = [
-        ("is_trivial", "is_trivial_bitmask", ["self._split_bitmask", "self._tree_leafset_bitmask"]),
-        ("is_compatible_with", "is_compatible_bitmasks", ["m1", "m2", "self._tree_leafset_bitmask"]),
-    ]
-    for name, callee, want in wiring:
-        fi = index.function(BIP + "." + name)
-        cs = [c for c in calls_in(fi.node) if call_name(c) == callee]
-        got = [norm(a) for a in cs[0].args] if cs else None
-        rep.check(got == want, "R01.6", fi.qualname, "%s(%s)" % (callee, got), fn_where(fi), "%s -> %s(%s)" % (name, callee, ", ".join(want)),
-                  "%s calls %s(%s); expected (%s): the predicate is evaluated on the wrong masks" % (fi.qualname, callee, got, ", ".join(want)))
+    def arg_defs(fi, e):
+        """set of definition texts of an argument expression (locals resolved one level)."""
+        if isinstance(e, ast.Name) and e.id not in fi.all_params:
+            ds = {norm(d.value) for d in _assign_defs(fi.node, e.id) if isinstance(d, ast.Assign)}
+            return ds or {e.id}
+        return {norm(e)}
+    fi = index.function(BIP + ".is_trivial")
+    cs = [c for c in calls_in(fi.node) if call_name(c) == "is_trivial_bitmask"]
+    got = [sorted(arg_defs(fi, a)) for a in cs[0].args] if cs else None
+    want = [["self._split_bitmask"], ["self._tree_leafset_bitmask"]]
+    rep.check(got == want, "R01.6", fi.qualname, "is_trivial_bitmask(%s)" % got, fn_where(fi), "is_trivial -> is_trivial_bitmask(split mask, tree leafset mask)",
+              "%s calls is_trivial_bitmask(%s); expected (%s): the predicate is evaluated on the wrong masks" % (fi.qualname, got, want))
     fi = index.function(BIP + ".is_compatible_with")
-    m1 = [d for d in _assign_defs(fi.node, "m1")]
-    m2 = [norm(d.value) for d in _assign_defs(fi.node, "m2")]
-    ok = len(m1) == 1 and norm(m1[0].value) == "self._split_bitmask" and set(m2) == {"other", "other._split_bitmask"}
-    rep.check(ok, "R01.6", fi.qualname, "m1=%s m2=%s" % ([norm(d.value) for d in m1], m2), fn_where(fi), "compatibility compares the two SPLIT masks",
-              "is_compatible_with compares %s with %s rather than the two split bitmasks" % ([norm(d.value) for d in m1], m2))
+    cs = [c for c in calls_in(fi.node) if call_name(c) == "is_compatible_bitmasks"]
+    got = [sorted(arg_defs(fi, a)) for a in cs[0].args] if cs else None
+    ok = got is not None and len(got) == 3 and got[0] == ["self._split_bitmask"] and set(got[1]) == {"other", "other._split_bitmask"} and got[2] == ["self._tree_leafset_bitmask"]
+    rep.check(ok, "R01.6", fi.qualname, "is_compatible_bitmasks(%s)" % got, fn_where(fi), "compatibility compares the two SPLIT masks within this tree's leaf set",
+              "is_compatible_with calls is_compatible_bitmasks(%s) rather than (self split mask, other split mask, tree leafset mask)" % got)
     fi = index.function(BIP + ".is_leafset_nested_within")
     ret = [n for n in walk_no_nested(fi.node) if isinstance(n, ast.Return)]
-    ok = len(ret) == 1 and norm(ret[0].value) == "m2 & self._leafset_bitmask == self._leafset_bitmask" and \
-        any(norm(d.value) == "self._tree_leafset_bitmask & m2" for d in _assign_defs(fi.node, "m2")) and \
-        any(norm(d.value) == "other._leafset_bitmask" for d in _assign_defs(fi.node, "m2"))
+    ok = False
+    if len(ret) == 1 and isinstance(ret[0].value, ast.Compare) and isinstance(ret[0].value.left, ast.BinOp) and isinstance(ret[0].value.left.op, ast.BitAnd):
+        cmpn = ret[0].value
+        operands = [cmpn.left.left, cmpn.left.right]
+        others = [o for o in operands if norm(o) != "self._leafset_bitmask"]
+        ok = norm(cmpn.comparators[0]) == "self._leafset_bitmask" and len(others) == 1 and isinstance(others[0], ast.Name)
+        if ok:
+            ds = {norm(d.value).replace(others[0].id, "$m") for d in _assign_defs(fi.node, others[0].id) if isinstance(d, ast.Assign)}
+            ok = "self._tree_leafset_bitmask & $m" in ds and "other._leafset_bitmask" in ds
     rep.check(ok, "R01.6", fi.qualname, "nesting test: " + (norm(ret[0].value) if ret else "?"), fn_where(fi), "leafset nesting: (other.leafset & tree leafset) & self.leafset == self.leafset",
               "is_leafset_nested_within no longer tests (m2 & self._leafset_bitmask) == self._leafset_bitmask on the other's LEAFSET mask restricted to this tree's leaf set")
